@@ -165,13 +165,13 @@ pub(crate) mod verif_probe {
         let (mut client_end, pgcat_end) = duplex(1 << 16);
         let (read, write) = split(pgcat_end);
         let (tx, rx) = tokio::sync::broadcast::channel::<()>(1);
-        let _keep = tx;
         let mut startup = BytesMut::new();
         startup.put_slice(b"user\0"); startup.put_slice(user.as_bytes()); startup.put_u8(0);
         if let Some(d) = &db { startup.put_slice(b"database\0"); startup.put_slice(d.as_bytes()); startup.put_u8(0); }
         startup.put_u8(0);
+        let shutdown_during_challenge = v["shutdown_during_challenge"].as_bool().unwrap_or(false);
         let task = tokio::spawn(async move {
-            Client::startup(read, write, "127.0.0.1:1".parse().unwrap(), startup, map, rx, admin_only).await.map(|_| ())
+            Client::startup(read, write, "127.0.0.1:1".parse().unwrap(), startup, map, rx, admin_only).await
         });
         // read what the pooler says first
         let mut admitted_msg = false;
@@ -186,6 +186,8 @@ pub(crate) mod verif_probe {
             if code == b'R' && body.len() == 8 && body[3] == 5 {
                 salt = Some([body[4], body[5], body[6], body[7]]);
                 let s = salt.unwrap();
+                // SIGINT arrives while this client's challenge is outstanding: main() sends the broadcast exactly once, now
+                if shutdown_during_challenge { let _ = tx.send(()); tokio::time::sleep(std::time::Duration::from_millis(50)).await; }
                 let correct = if db.as_deref() == Some("pgcat") || db.as_deref() == Some("pgbouncer") {
                     crate::messages::md5_hash_password("admin", "adminpw", &s)
                 } else if authq { crate::messages::md5_hash_second_pass(&first_pass, &s)
@@ -208,8 +210,25 @@ pub(crate) mod verif_probe {
             } else if code == b'Z' { break; }
         }
         let res = tokio::time::timeout(std::time::Duration::from_secs(3), task).await;
-        let ok = matches!(res, Ok(Ok(Ok(()))));
-        json!({"admitted": ok && admitted_msg, "startup_ok": ok, "auth_ok_seen": admitted_msg, "challenged": salt.is_some(), "answered": answered, "detail": detail})
+        let ok = matches!(res, Ok(Ok(Ok(_))));
+        let mut told_shutdown = false;
+        if shutdown_during_challenge {
+            if let Ok(Ok(Ok(mut client))) = res {
+                // the admitted client now sits idle between transactions: it must be told (the broadcast was sent before it got here)
+                let h = tokio::spawn(async move { let _ = client.handle().await; });
+                loop {
+                    let code = match tokio::time::timeout(std::time::Duration::from_millis(1200), client_end.read_u8()).await { Ok(Ok(c)) => c, _ => break };
+                    let len = match client_end.read_i32().await { Ok(l) => l, Err(_) => break };
+                    let mut body = vec![0u8; (len as usize).saturating_sub(4)];
+                    if client_end.read_exact(&mut body).await.is_err() { break; }
+                    if code == b'E' && String::from_utf8_lossy(&body).contains("administrator command") { told_shutdown = true; break; }
+                }
+                h.abort();
+            }
+        }
+        let _keep = tx;
+        json!({"admitted": ok && admitted_msg, "startup_ok": ok, "auth_ok_seen": admitted_msg, "challenged": salt.is_some(), "answered": answered, "detail": detail,
+               "told_shutdown": told_shutdown})
     }
 
     pub(crate) fn handle(op: &str, v: &Value) -> Option<Value> {
